@@ -1,6 +1,6 @@
 """C06 (C side) - contracts and loop invariants for jellyfysh/scheduler/heap_scheduler/heap.c.  Model R for the
 times (comparisons only), mathematical integers with no-wrap obligations for the unsigned indices."""
-from pyvc.api import cls, struct, spec, contract, ufunc, LoopSpec
+from pyvc.api import cls, struct, spec, contract, ufunc, axiom, lemma, LoopSpec
 
 F = "jellyfysh/scheduler/heap_scheduler/heap.c:"
 struct("HeapEntry", ("time_quotient", "float"), ("time_remainder", "float"), ("event_handler", "any"), ("counter", "int"))
@@ -24,6 +24,14 @@ spec("same_entry(a, b)", "a.time_quotient == b.time_quotient and a.time_remainde
                          "same(a.event_handler, b.event_handler) and a.counter == b.counter")
 spec("is_marker(e)", "e.time_quotient == -inf and e.time_remainder == -inf and e.event_handler is None and e.counter == 2**32 - 1")
 
+# the root of a heap-ordered array is minimal: consequence of the parent order by strong induction on the index;
+# the induction step is the lemma unit "heap-root-minimal-step" below, the induction schema itself is meta-level
+axiom("heap-root-minimal", {"a": "arr[HeapEntry]", "n": "int"},
+      "implies(forall(2, n, lambda j: not lt(a[j], a[j // 2])), forall(1, n, lambda j: not lt(a[j], a[1])))")
+lemma("heap-root-minimal-step", "C06", model="R", variables={"a": "arr[HeapEntry]", "j": "int"},
+      assumes=["j >= 2", "forall(1, j, lambda k: not lt(a[k], a[1]))", "not lt(a[j], a[j // 2])"],
+      goal="not lt(a[j], a[1])")
+
 # ------------------------------------------------------------------------------------------------- insert
 contract(F + "insert", "C06", model="R",
          requires=["heap is not None", "wf(heap)", "time_quotient > -inf", "heap.size <= 2**30"],
@@ -36,6 +44,8 @@ contract(F + "insert", "C06", model="R",
              "E(heap, p).time_remainder == time_remainder and same(E(heap, p).event_handler, event_handler) and "
              "E(heap, p).counter == counter))",
              "implies(result != 2**64 - 1, result == heap.size * sizeof_struct_HeapEntry())",
+             # the block is either the old one or a newly allocated one (never somebody else's memory)
+             "heap.heap_entries is None or same(heap.heap_entries, old(heap.heap_entries)) or fresh(heap.heap_entries)",
          ],
          loops={0: LoopSpec(
              modifies=["contents(heap.heap_entries)"],
@@ -70,14 +80,19 @@ contract(F + "bubble_down", "C06", model="R",
              # nothing is invented: a handler absent from the entries before is absent afterwards
              "implies(forall(1, heap.length + 1, lambda i: not same(old(E(heap, i)).event_handler, ghost_h)), "
              "forall(1, heap.length + 1, lambda j: not same(E(heap, j).event_handler, ghost_h)))",
+             # ... and a set of handlers that contained every entry's handler still does
+             "implies(forall(1, heap.length + 1, lambda i: has(ghost_d, old(E(heap, i)).event_handler)), "
+             "forall(1, heap.length + 1, lambda j: has(ghost_d, E(heap, j).event_handler)))",
          ],
-         ghost={"params": {"ghost_h": "any"}},
+         ghost={"params": {"ghost_h": "any", "ghost_d": "dict[any,int]"}},
          loops={0: LoopSpec(
              modifies=["contents(heap.heap_entries)"],
              invariant=[
                  "block_ok(heap)",
                  "implies(forall(1, heap.length + 1, lambda i: not same(old(E(heap, i)).event_handler, ghost_h)), "
                  "forall(1, heap.length + 1, lambda j: not same(E(heap, j).event_handler, ghost_h)))",
+                 "implies(forall(1, heap.length + 1, lambda i: has(ghost_d, old(E(heap, i)).event_handler)), "
+                 "forall(1, heap.length + 1, lambda j: has(ghost_d, E(heap, j).event_handler)))",
                  "old(position) <= position <= heap.length",
                  "E(heap, heap.length) == old(E(heap, heap.length))",
                  "forall(0, old(position), lambda j: E(heap, j) == old(E(heap, j)))",
@@ -101,12 +116,34 @@ contract(F + "root", "C06", model="R",
              "implies(heap.length > 1, result == E(heap, 1) and "
              "call_event_valid_callback(scheduler, result.event_handler, result.counter) == 0)",
              "implies(heap.length <= 1, is_marker(result))",
+             "implies(forall(1, old(heap.length), lambda i: has(ghost_d, old(E(heap, i)).event_handler)), "
+             "forall(1, heap.length, lambda j: has(ghost_d, E(heap, j).event_handler)))",
          ],
+         ghost={"params": {"ghost_d": "dict[any,int]"}, "args": {"bubble_down": {"ghost_d": "ghost_d"}}},
+         loops={0: LoopSpec(modifies=["heap.length", "contents(heap.heap_entries)"],
+                            invariant=["wf(heap)", "heap.length <= old(heap.length) and heap.size == old(heap.size)",
+                                       "same(heap.heap_entries, old(heap.heap_entries))",
+                                       "implies(forall(1, old(heap.length), lambda i: has(ghost_d, old(E(heap, i)).event_handler)), "
+                                       "forall(1, heap.length, lambda j: has(ghost_d, E(heap, j).event_handler)))"],
+                            variant="heap.length")},
+         canary="heap.length == 0")
+
+
+contract(F + "root", "C06", model="R", tag="minimal",
+         requires=["heap is not None", "wf(heap)"],
+         modifies=["heap.length", "contents(heap.heap_entries)"],
+         ensures=[
+             # the returned entry is minimal among the stored ones (quotient first, then remainder)
+             "implies(heap.length > 1, forall(1, heap.length, lambda j: not lt(E(heap, j), result)))",
+         ],
+         ghost={"params": {"ghost_d": "dict[any,int]"}, "args": {"bubble_down": {"ghost_d": "ghost_d"}},
+                "late_axioms": ["heap-root-minimal"]},
          loops={0: LoopSpec(modifies=["heap.length", "contents(heap.heap_entries)"],
                             invariant=["wf(heap)", "heap.length <= old(heap.length) and heap.size == old(heap.size)",
                                        "same(heap.heap_entries, old(heap.heap_entries))"],
                             variant="heap.length")},
          canary="heap.length == 0")
+
 
 # ------------------------------------------------------------------------------------------ delete_events
 contract(F + "delete_events", "C06", model="R",
